@@ -18,7 +18,7 @@ RULE = ("4 of 5 runs: battery bench (1-200 charge()/reset() calls on one battery
         "pilots 0, 1e-9 .. 10x max); 1 of 5: whole simulations with noisy batteries; non-trivial = sequence crosses the "
         "transition SoC or reaches >= 99.9% SoC; distinct = distinct (battery class, calc, noise?, tape, crossing pattern)")
 PROBES = ["crossed_transition", "reached_99_9", "noise_draw", "extreme_tape", "pilot_above_max", "tiny_pilot",
-          "exactly_full_start", "world_runs", "stepwise_tail_noise", "long_period_call", "pilot_just_off_a_finite_level", "second_life"]
+          "exactly_full_start", "world_runs", "stepwise_tail_noise", "long_period_call", "pilot_just_off_a_finite_level", "second_life", "refused_reset"]
 FAULT_DIMENSION = "adversarial noise tape (the system's own randomness is the fault surface)"
 REAL_VS_STUB = "real: Battery, Linear2StageBattery, EV, EVSE, Simulator; ours: numpy.random.normal tape"
 ASSUMPTIONS = ["tolerances: 1e-9 relative + 1e-9 absolute on rate/power/charge comparisons",
@@ -51,6 +51,12 @@ def check(sc):
     log = []
 
     def on_call(i, op, pre, post, rate, batt):
+        if rate is None and op["op"] == "reset_refused":
+            out.probe("refused_reset")
+            if post[0] > cap * (1 + eps) + eps:
+                out.add("C03/charge_above_capacity", "call %d: after a reset(%r x capacity) that %s the stored charge is %r, capacity %r"
+                        % (i, op["frac"], "was refused with ValueError" if op.get("refused") else "was accepted", post[0], cap))
+            return
         if rate is None:
             return
         pilot, period = op["pilot"], op["period"]
